@@ -257,8 +257,12 @@ def try_concrete_str(s):
         return None
 
 
-def str_eq(a, b):
-    """Python == on two strings -> z3 Bool (or bool)."""
+def str_eq(a, b, ctx=None):
+    """Python == on two strings -> z3 Bool (or bool).
+
+    Two strings of unknown length: only as a positive proof goal, where the universally
+    quantified position is skolemised (ctx.goal_mode is switched off under negations,
+    conditions and antecedents by the evaluator)."""
     if isinstance(a, (str, bytes)) and isinstance(b, (str, bytes)):
         return a == b
     a, b = as_sstr(a), as_sstr(b)
@@ -279,7 +283,13 @@ def str_eq(a, b):
         # equal lengths imply the common length is <= m
         return z3.And([a.length == b.length] +
                       [z3.Implies(i < a.length, a.at(i) == b.at(i)) for i in range(m)])
+    if ctx is not None and ctx.goal_mode:
+        sk = ctx.fresh("sk_pos")
+        return z3.And(a.length == b.length, z3.Implies(z3.And(sk >= 0, sk < a.length), a.at(sk) == b.at(sk)))
     raise Unsupported("equality of two strings of unknown length")
+
+
+MEMBER = z3.Function("intset_member", INT, INT, BOOL)
 
 
 class TypeName(object):
@@ -974,7 +984,12 @@ class Exec(object):
         return FuncRef(fr.module, q, node, closure=[fr.env] + fr.closure)
 
     def ev_IfExp(self, node):
-        c = self.eval(node.test)
+        gm = self.ctx.goal_mode
+        self.ctx.goal_mode = False
+        try:
+            c = self.eval(node.test)
+        finally:
+            self.ctx.goal_mode = gm
         t = self.truth(c)
         if isinstance(t, bool):
             return self.eval(node.body if t else node.orelse)
@@ -1017,7 +1032,15 @@ class Exec(object):
         return v
 
     def ev_UnaryOp(self, node):
-        v = self.eval(node.operand)
+        if isinstance(node.op, ast.Not):
+            gm = self.ctx.goal_mode
+            self.ctx.goal_mode = False
+            try:
+                v = self.eval(node.operand)
+            finally:
+                self.ctx.goal_mode = gm
+        else:
+            v = self.eval(node.operand)
         if isinstance(node.op, ast.Not):
             t = self.truth(v)
             if isinstance(t, bool):
@@ -1175,7 +1198,12 @@ class Exec(object):
         if isinstance(op, ast.Mult) and isinstance(b, PList) and isinstance(a, int):
             return PList(b.items * a)
         if isinstance(op, ast.Mult) and isinstance(a, PList) and isinstance(b, SInt):
-            return self.engine.list_repeat(self, a, b)
+            cv = concrete_int(b.e)
+            if cv is not None:
+                return PList(a.items * max(cv, 0))
+            return RepList(a.items, b.e, [])
+        if isinstance(op, ast.Add) and isinstance(a, RepList) and isinstance(b, PList):
+            return RepList(a.base, a.count, a.tail + b.items, head=a.head)
         # ---- objects with operator methods
         if isinstance(a, Obj):
             name = {ast.Add: "__add__", ast.Sub: "__sub__", ast.Mult: "__mul__"}.get(type(op))
@@ -1413,7 +1441,13 @@ class Exec(object):
                 r = (not r) if isinstance(r, bool) else z3.Not(r)
             return r
         if t in (ast.Eq, ast.NotEq):
-            r = self.equals(a, b, line)
+            gm = self.ctx.goal_mode
+            if t is ast.NotEq or isinstance(a, (bool, SBool)) or isinstance(b, (bool, SBool)):
+                self.ctx.goal_mode = False
+            try:
+                r = self.equals(a, b, line)
+            finally:
+                self.ctx.goal_mode = gm
             if t is ast.NotEq:
                 if isinstance(a, Obj) and self.find_method(a.cls, "__ne__") is not None:
                     v = self.call(BoundMethod(a, self.find_method(a.cls, "__ne__")), [b], {}, line)
@@ -1471,7 +1505,7 @@ class Exec(object):
         if a is None or b is None:
             return a is None and b is None
         if is_strlike(a) and is_strlike(b):
-            return str_eq(a, b)
+            return str_eq(a, b, self.ctx if self.frame.spec else None)
         if is_strlike(a) or is_strlike(b):
             # str vs non-str
             return False
@@ -1519,6 +1553,8 @@ class Exec(object):
         raise Unsupported("equality of %r and %r" % (a, b))
 
     def contains(self, container, item, line):
+        if isinstance(container, SIntSet):
+            return MEMBER(z3.IntVal(container.ident), zint(item))
         if isinstance(container, PDict):
             keys = list(container.d.keys())
             return self.any_eq(item, keys, line)
@@ -1673,6 +1709,10 @@ class Exec(object):
         if isinstance(o, SList):
             pos = self.norm_index(idx, o.length, line)
             return self.engine.slist_elem(self, o, pos)
+        if isinstance(o, RepList):
+            if getattr(o, "is_iterator", False):
+                raise Raised(TypeError, line, implicit=True, note="iterator is not subscriptable")
+            return self.replist_item(o, idx, line)
         if isinstance(o, Obj):
             m = self.find_method(o.cls, "__getitem__")
             if m is not None:
@@ -1686,7 +1726,60 @@ class Exec(object):
                 raise Raised(IndexError, line, implicit=True)
         raise Raised(TypeError, line, implicit=True, note="not subscriptable: %r" % (o,))
 
+    def replist_item(self, o, idx, line):
+        h, p, t = len(o.head), len(o.base), len(o.tail)
+        cnt = ghost.zmax0(o.count)
+        if not isinstance(idx, int):
+            total = h + p * cnt + t
+            i = zint(idx)
+            pos = z3.If(i < 0, i + total, i)
+            if not self.frame.spec:
+                if not self.ctx.branch(z3.And(pos >= 0, pos < total)):
+                    raise Raised(IndexError, line, implicit=True)
+            r = None
+            for j in range(t - 1, -1, -1):
+                r = o.tail[j] if r is None else self.merge(pos == h + p * cnt + j, o.tail[j], r)
+            for j in range(p - 1, -1, -1):
+                c = z3.And(pos >= h, pos < h + p * cnt, (pos - h) % p == j)
+                r = o.base[j] if r is None else self.merge(c, o.base[j], r)
+            for j in range(h - 1, -1, -1):
+                r = o.head[j] if r is None else self.merge(pos == j, o.head[j], r)
+            return r
+        total = h + p * cnt + t
+        if idx < 0:
+            if -idx <= t:
+                return o.tail[idx]
+            raise Unsupported("negative index into the repeated part")
+        if not self.frame.spec:
+            if not self.ctx.branch(idx < total):
+                raise Raised(IndexError, line, implicit=True)
+        if idx < h:
+            return o.head[idx]
+        j0 = idx - h
+        r = o.base[j0 % p] if p else None
+        for c in range(0, (j0 // p if p else 0) + 1):
+            j = j0 - p * c
+            if 0 <= j < t:
+                cand = o.tail[j]
+                r = cand if r is None else self.merge(cnt == c, cand, r)
+        if r is None:
+            raise Raised(IndexError, line, implicit=True)
+        return r
+
     def getslice(self, o, lo, hi, st, line):
+        if isinstance(o, RepList) and getattr(o, "is_iterator", False):
+            raise Raised(TypeError, line, implicit=True, note="iterator is not subscriptable")
+        if isinstance(o, RepList) and st is None and lo is None and isinstance(hi, int) and hi < 0 \
+                and len(o.tail) < -hi <= len(o.tail) + len(o.base):
+            # peel one repetition off the repeated part (needs count >= 1)
+            if not self.frame.spec:
+                if not self.ctx.branch(o.count >= 1):
+                    raise Unsupported("slice of an empty repetition")
+            peeled = RepList(o.base, z3.simplify(o.count - 1), o.base + o.tail, head=o.head)
+            return self.getslice(peeled, lo, hi, st, line)
+        if isinstance(o, RepList) and st is None and lo is None and isinstance(hi, int) and hi < 0 \
+                and -hi <= len(o.tail):
+            return RepList(o.base, o.count, o.tail[:hi], head=o.head)
         if st is not None and st != 1:
             if isinstance(o, (str, bytes, tuple)) and all(x is None or isinstance(x, int) for x in (lo, hi, st)):
                 return o[lo:hi:st]
@@ -1772,6 +1865,12 @@ class Exec(object):
             raise Raised(AttributeError, line, implicit=True, note=name)
         if isinstance(o, (PList, PDict, PSet, SStr, str, bytes, SList, PIter)):
             return NativeMethod(o, name)
+        if isinstance(o, SuperProxy):
+            mro = list(o.obj.cls.__mro__)
+            for k in mro[mro.index(o.after) + 1:]:
+                if name in k.__dict__ and isinstance(k.__dict__[name], types.FunctionType):
+                    return BoundMethod(o.obj, self.engine.funcref_of(k.__dict__[name]))
+            raise Raised(AttributeError, line, implicit=True, note="super().%s" % name)
         if isinstance(o, ExcValue):
             raise Unsupported("attribute of exception value")
         if isinstance(o, (int, float, SInt, SReal)):
@@ -1784,6 +1883,14 @@ class Exec(object):
     def ev_Call(self, node):
         f = self.eval(node.func)
         args = []
+        if self.frame.spec and isinstance(node.func, ast.Name) and node.func.id == "implies" and len(node.args) == 2:
+            gm = self.ctx.goal_mode
+            self.ctx.goal_mode = False
+            try:
+                a0 = self.eval(node.args[0])
+            finally:
+                self.ctx.goal_mode = gm
+            return self.call(f, [a0, self.eval(node.args[1])], {}, node.lineno)
         for a in node.args:
             if isinstance(a, ast.Starred):
                 args.extend(self.iter_concrete(self.eval(a.value), node.lineno))
